@@ -39,7 +39,10 @@ pub fn adequacy(s: &StepRec, p: &Post) -> Option<Adequacy> {
 pub fn oracle_row(s: &StepRec, p: &Post) -> Vec<String> {
     let mut f = Vec::new();
     let st = &p.st;
-    if !(st.speed.value >= -1e-9) { f.push(format!("negative speed {} (the train reverses)", st.speed.value)); }
+    if !(st.speed.value >= -1e-9) {
+        let note = match adequacy(s, p) { Some(a) if !a.traction => " [TractionAdequate failed on this step]", Some(_) => " [TractionAdequate held]", None => "" };
+        f.push(format!("negative speed {} (the train reverses){}", st.speed.value, note));
+    }
     if !(st.speed.value <= st.speed_limit.value * (1.0 + 1e-9) + 1e-9) {
         let note = match adequacy(s, p) { Some(a) if !a.brake => " [BrakeAdequate failed on this step]", Some(_) => " [BrakeAdequate held]", None => "" };
         f.push(format!("speed {} above the limit in force {}{}", st.speed.value, st.speed_limit.value, note));
